@@ -502,9 +502,10 @@ func (e *Exec) havocTarget(s, pre *State, m string, vars map[string]specVar, fc 
 		v, t := e.evalNodeWith(cc, n, pre, pre, vars)
 		if gf := e.v.ghostField(t, fld); gf != nil {
 			name := ghostHeapName(gf)
-			sortS := e.ghostHeapSort(gf, v.(*Node).Sort)
+			sortS := e.ghostHeapSort(gf, "Iface")
 			h := e.heap(s, name, sortS)
-			e.setHeap(s, name, Store(h, v.(*Node), TS.Fresh("mod_"+name, arrayValSort(sortS))), v.(*Node))
+			on := e.ghostOwner(s, v, t)
+			e.setHeap(s, name, Store(h, on, TS.Fresh("mod_"+name, arrayValSort(sortS))), on)
 			return
 		}
 		st, isPtr := structOf(t)
@@ -741,16 +742,44 @@ func (e *Exec) makeInterface(s *State, x *ssa.MakeInterface) Value {
 	declIface()
 	t := x.X.Type()
 	v := e.val(s, x.X)
-	i := TS.Fresh("iface", "Iface")
+	return e.box(s, v, t)
+}
+
+// box: the interface value holding v of dynamic type t. Boxing is a function of (t, v): converting
+// the same pointer twice gives the same interface value (and hence the same ghost state).
+func (e *Exec) box(s *State, v Value, t types.Type) *Node {
+	declIface()
+	var i *Node
+	func() {
+		defer func() {
+			if recover() != nil {
+				i = nil
+			}
+		}()
+		ls := leavesOf(v)
+		if len(ls) == 0 || len(ls) > 12 {
+			return
+		}
+		var sorts []string
+		for _, l := range ls {
+			sorts = append(sorts, l.Sort)
+		}
+		fn := fmt.Sprintf("box_%s_%d", sanitize(typeKey(t)), int(e.mode))
+		TS.DeclFun(fn, sorts, "Iface")
+		i = App(fn, "Iface", ls...)
+	}()
+	if i == nil {
+		i = TS.Fresh("iface", "Iface") // interior pointers and other non-flattenable payloads: identity only
+		s.assume(Eq(App("dyn", "Int", i), IntLit(int64(e.v.typeTag(t)))))
+		s.assume(Not(Eq(i, ifaceNil())))
+		return i
+	}
 	s.assume(Eq(App("dyn", "Int", i), IntLit(int64(e.v.typeTag(t)))))
 	s.assume(Not(Eq(i, ifaceNil())))
-	func() {
-		defer func() { recover() }() // interior pointers and other non-flattenable payloads: identity only
-		bx := e.unbox(i, t)
-		var eqs []*Node
-		zipLeaves(bx, v, func(a, b *Node) *Node { eqs = append(eqs, Eq(a, b)); return a })
-		s.assume(And(eqs...))
-	}()
+	bx := e.unbox(i, t)
+	var eqs []*Node
+	zipLeaves(bx, v, func(a, b *Node) *Node { eqs = append(eqs, Eq(a, b)); return a })
+	s.assume(And(eqs...))
 	return i
 }
 
